@@ -20,7 +20,7 @@ RULE = ("every period of each frequency in the year range; per period 10 represe
         "non-trivial case = (frequency, ordinal)")
 MANIFEST_ENTRY = dict(level="exploration", design="DESIGN.md section 4 / C11",
     technique="exhaustive enumeration of every calendar period x representation x frequency pair x position against a datetime-only containment reference",
-    text="For every period of every frequency in the year range (quick 1800-2200, daily 1896-2104; thorough 1-9998, daily 1583-2420, integers -1000..1000): SDMX (auto-detected and explicit frequency), ISO, (year, segment), (y,m,d) at start/middle/end, Python date, repr->eval and periods_from_sdmx_strings round trips are the identity; to_ymd positions lie inside the period in order; refrequent to each calendar frequency at each position returns the unique target period containing that day, is monotone, and coarse->fine->coarse returns the original.",
+    text="For every period of every frequency in the year range (quick 1800-2200, daily 1896-2104; thorough 1-9998, daily 1583-2420, integers -1000..1000): SDMX (auto-detected and explicit frequency), ISO, (year, segment), (y,m,d) at start/middle/end, Python date, repr->eval and periods_from_sdmx_strings round trips are the identity; to_ymd positions lie inside the period in order; refrequent to each calendar frequency at each position returns the unique target period containing that day, is monotone, and coarse->fine->coarse returns the original; periods of different regular frequencies with the same internal number (ordinals 3600-9998) are checked back to back in one process.",
     note="Trusted: Python datetime/calendar and ref/calendar.py. Years outside the range and weekly frequency are not covered; the library's SDMX text is cross-checked against the SDMX form only for calendar frequencies.")
 ASSUMPTIONS = ["Python datetime/calendar are a correct proleptic Gregorian calendar"]
 
@@ -145,6 +145,20 @@ def shard(item, res, ctx):
     res.sample({"freq": C.NAMES[freq], "from": lo, "to": hi})
 
 
+def shard_equal_serials(item, res, ctx):
+    """periods of the four regular frequencies that share the same internal number, queried back to back in one
+    process: state keyed by that number alone (a cache, a table) would leak from one frequency to another"""
+    lo, hi = item
+    for o in range(lo, hi + 1):
+        for f in C.REGULAR:
+            res.nt(o * 7 + (f % 7))
+            try:
+                check_period(f, o, res, None)
+            except Exception as e:
+                res.violation("exception", {"freq": C.NAMES[f], "error": type(e).__name__}, {"freq": C.NAMES[f], "ordinal": o, "interleaved": True}, str(e))
+    res.sample({"interleaved_frequencies": "YHQM", "ordinals": [lo, hi]})
+
+
 def run(ctx, total, info):
     if ctx.quick:
         yr, dyr, blocks = (1800, 2200), (1896, 2104), 40
@@ -164,6 +178,9 @@ def run(ctx, total, info):
     shards.append((C.I, 1, 1000))
     shards.sort(key=lambda s: -(s[2] - s[1] + 1) * (365 if s[0] == C.D else max(s[0], 1)))
     engine.run_shards(__name__, "shard", shards, ctx, total)
+    # ordinals 3600..9998 are valid years for yearly periods and valid periods of the other regular frequencies
+    step = 400 if ctx.quick else 100
+    engine.run_shards(__name__, "shard_equal_serials", [(a, min(a + step - 1, 9998)) for a in range(3600, 9999, step)], ctx, total)
     info["year_range"] = {"regular": list(yr), "daily": list(dyr), "integer": [-1000, 1000]}
     info["exhaustive"] = True
     info["floors"] = {"periods": (len(total.nontrivial), 50000), "evaluations": (total.evaluations, 1000000)}
@@ -179,5 +196,13 @@ def replay(case):
             prev = check_period(f, o - 1, engine.Result(), None)
         except Exception:
             prev = None
+    if f in C.REGULAR and 3600 <= o <= 9998:
+        # the other regular frequencies with the same internal number first (see shard_equal_serials)
+        for g in C.REGULAR:
+            if g != f:
+                try:
+                    check_period(g, o, engine.Result(), None)
+                except Exception:
+                    pass
     check_period(f, o, res, prev)
     return ["%s %s %s" % (v["check"], engine.sigkey(v["signature"]), v["detail"]) for v in res.violations]
